@@ -6,6 +6,8 @@ use std::path::Path;
 use std::time::Instant;
 
 pub mod c03;
+pub mod c05;
+pub mod c06;
 pub mod c08;
 pub mod c09;
 pub mod c10;
@@ -20,6 +22,8 @@ type ReplayFn = fn(&Value) -> Outcome;
 
 const TABLE: &[(&str, RunFn, ReplayFn)] = &[
     ("C03", c03::run, c03::replay),
+    ("C05", c05::run, c05::replay),
+    ("C06", c06::run, c06::replay),
     ("C08", c08::run, c08::replay),
     ("C09", c09::run, c09::replay),
     ("C10", c10::run, c10::replay),
